@@ -284,6 +284,36 @@ def r04_8_queries_are_used(ctx: Ctx) -> RuleResult:
 
 
 # shared with C02: zone rules anchored on 29 February must use the calendar's leap predicate (home id R02.5)
-from .c02 import r02_5_leap_decisions as _r02_5  # noqa: E402
+# (cross-registration moved to sa/rules/shared.py: SHARED)
 
-rule("C04")(_r02_5)
+# (cross-registration moved to sa/rules/shared.py: SHARED)
+
+
+@rule("C04")
+def r04_9_end_of_time_years(ctx: Ctx) -> RuleResult:
+    """_ZoneRecurrence handles instants whose local time (instant + rule offset) falls off either end of the time line by
+    pretending the query was made in the first / last Gregorian year.  The year must match the end that was hit: the minimum year
+    only where the facts say the local instant is the before-min sentinel, the maximum year only where it is invalid and *not*
+    the before-min sentinel (i.e. after-max).  The two branches are mirror images in `_next` and `_previous_or_same`, which is
+    how one gets pasted into the other."""
+    from ..exc import facts_at
+
+    rr = RuleResult("R04.9", "recurrence: the pretend-year at the ends of time is the minimum year under the before-min sentinel and the maximum year under the after-max one", min_instances=2)
+    c = ctx.M.cls("_ZoneRecurrence")
+    for f in c.all_defs:
+        if isinstance(f.node, ast.Lambda):
+            continue
+        for n in own_nodes(f.node):
+            if not (isinstance(n, ast.Assign) and isinstance(n.value, ast.Attribute) and n.value.attr in ("_MIN_GREGORIAN_YEAR", "_MAX_GREGORIAN_YEAR")):
+                continue
+            rr.inst()
+            facts = facts_at(n)
+            before = any(op == "==" and "before_min_value" in b for a, op, b in facts) or any(op == "==" and "before_min_value" in a for a, op, b in facts)
+            not_before = any(op == "!=" and ("before_min_value" in b or "before_min_value" in a) for a, op, b in facts)
+            after = any(op == "==" and ("after_max_value" in b or "after_max_value" in a) for a, op, b in facts) or (not_before and any(op == "falsy" and a.endswith("_is_valid") for a, op, b in facts))
+            want_min = n.value.attr == "_MIN_GREGORIAN_YEAR"
+            if (want_min and before and not after) or (not want_min and after and not before):
+                rr.ok({"fn": f.qual, "year": n.value.attr, "under": "before-min sentinel" if want_min else "after-max sentinel"})
+            else:
+                rr.fail(f.qual, f"`{unparse(n)[:70]}` is executed when the local instant is the {'after-max' if after else 'before-min' if before else 'unknown'} sentinel: the recurrence is evaluated for the wrong end of time", ctx.loc(f, n))
+    return rr
